@@ -1,7 +1,7 @@
 #!/usr/bin/env python3
 """Developer aid: mechanical, semantics-preserving rewrites of the whole source tree (one kind per variant), applied to a scratch copy,
 followed by all 20 checks.  Any VIOLATION / ANALYSIS-ERROR beyond the base run is a false alarm of the machinery.
-usage: tools/auto_benign.py [kind ...]     kinds: pos2kw unpack rename flip rettemp kwrev ifexp2if augassign earlyret"""
+usage: tools/auto_benign.py [kind ...]     kinds: nestedif swapcmp pos2kw unpack rename flip rettemp kwrev ifexp2if augassign earlyret"""
 import ast, os, shutil, subprocess, sys, tempfile
 VERIF = os.path.dirname(os.path.dirname(os.path.abspath(__file__)))
 ALL = ["C%02d" % i for i in range(1, 21)]
@@ -141,7 +141,26 @@ class Unpack(ast.NodeTransformer):
         return node
 
 
-KINDS = {"pos2kw": Pos2Kw, "unpack": Unpack, "rename": Rename, "flip": Flip, "rettemp": RetTemp, "kwrev": KwRev, "ifexp2if": IfExp2If, "augassign": AugAssign, "earlyret": EarlyRet}
+class NestedIf(ast.NodeTransformer):
+    """`if a and b: X` (no else)  ->  `if a: if b: X`"""
+    def visit_If(self, node):
+        self.generic_visit(node)
+        if not node.orelse and isinstance(node.test, ast.BoolOp) and isinstance(node.test.op, ast.And) and len(node.test.values) == 2:
+            a, b = node.test.values
+            return ast.If(test=a, body=[ast.If(test=b, body=node.body, orelse=[])], orelse=[])
+        return node
+
+
+class SwapCmp(ast.NodeTransformer):
+    """`a == b` -> `b == a`, `a != b` -> `b != a` (single comparisons)"""
+    def visit_Compare(self, node):
+        self.generic_visit(node)
+        if len(node.ops) == 1 and isinstance(node.ops[0], (ast.Eq, ast.NotEq)):
+            node.left, node.comparators = node.comparators[0], [node.left]
+        return node
+
+
+KINDS = {"nestedif": NestedIf, "swapcmp": SwapCmp, "pos2kw": Pos2Kw, "unpack": Unpack, "rename": Rename, "flip": Flip, "rettemp": RetTemp, "kwrev": KwRev, "ifexp2if": IfExp2If, "augassign": AugAssign, "earlyret": EarlyRet}
 
 
 def run_checks(repo):
